@@ -23,9 +23,9 @@ type C13Case struct {
 	Origin string   `json:"origin,omitempty"`
 }
 
-var hostileRunes = []rune{'a', ' ', ' ', '(', ')', '[', ']', ';', ',', '\\', '\n', '\r', '\t', ' ', 'é', '😀', '�', '\'', '`', '#', '-', '.', '0', 'n', 't', ' ', '　', 'x'}
+var hostileRunes = []rune{'%', '%', 's', 'd', 'v', '!', '$', '{', '}', '*', '+', '?', '|', '^', '&', '<', '>', '=', '~', '@', '/', ':', 'a', ' ', ' ', '(', ')', '[', ']', ';', ',', '\\', '\n', '\r', '\t', ' ', 'é', '😀', '�', '\'', '`', '#', '-', '.', '0', 'n', 't', ' ', '　', 'x'}
 
-var hostileStringPool = []string{`a\b`, "a\nb", "é z", "a  b", "a(b", "a;b", ")", "(", ";", ";;;; optimize:false", `\`, `\\`, `\n`, " lead", "trail ", "\n", "a\r\nb", "tab\there", "[x]", "a,b", "'q'", "😀", "�", " ", "", "(and a b)", "1", "true", "x y z"}
+var hostileStringPool = []string{"50%% off", "100%", "a%sb", "%d", "%v%v", "%!s(MISSING)", "${x}", "$1", "{{.}}", "a*b?", "<tag>", "x=y&z", `a\b`, "a\nb", "é z", "a  b", "a(b", "a;b", ")", "(", ";", ";;;; optimize:false", `\`, `\\`, `\n`, " lead", "trail ", "\n", "a\r\nb", "tab\there", "[x]", "a,b", "'q'", "😀", "�", " ", "", "(and a b)", "1", "true", "x y z"}
 
 func genHostileString(t *rapid.T) string {
 	if rapid.Bool().Draw(t, "hpool") {
